@@ -2,6 +2,7 @@ package fdosim
 
 import (
 	"bytes"
+	"context"
 	"fmt"
 	"io"
 	"net/http"
@@ -16,6 +17,9 @@ import (
 // mutate it (Body, Token, Path, ...) or drop it; what is delivered is what is
 // left after all hooks ran.
 type NetEvent struct {
+	// HangUp: the sender disconnects as soon as the server starts to answer
+	// (the server-side request context is cancelled at that moment).
+	HangUp   bool   `json:"hang_up,omitempty"`
 	Seq      int    `json:"seq"`
 	From     string `json:"from"`
 	To       string `json:"to"`
@@ -285,8 +289,27 @@ func (node *Node) Serve(n *Net, ev *NetEvent) (rr *httptest.ResponseRecorder) {
 			rr.WriteHeader(http.StatusServiceUnavailable)
 		}
 	}()
+	if ev.HangUp {
+		// the sender goes away as soon as the server starts to answer: the
+		// request context is cancelled at the first byte of the response
+		ctx, cancel := context.WithCancel(req.Context())
+		defer cancel()
+		node.Handler().ServeHTTP(&hangUpWriter{ResponseWriter: rr, cancel: cancel}, req.WithContext(ctx))
+		return rr
+	}
 	node.Handler().ServeHTTP(rr, req)
 	return rr
+}
+
+type hangUpWriter struct {
+	http.ResponseWriter
+	cancel context.CancelFunc
+}
+
+func (w *hangUpWriter) WriteHeader(code int) { w.cancel(); w.ResponseWriter.WriteHeader(code) }
+func (w *hangUpWriter) Write(p []byte) (int, error) {
+	w.cancel()
+	return w.ResponseWriter.Write(p)
 }
 
 // TopLibraryFrame extracts the innermost go-fdo frame of a stack trace.
